@@ -87,6 +87,10 @@ pub enum C14Case {
         su: u8,
         gu: u8,
         points: Vec<(Coord, Coord)>,
+        /// units the model is *declared* in: (speed unit, variant of the rate unit). The random
+        /// forest maps numbers to numbers, so the tabulated numbers do not depend on the labels
+        #[serde(default)]
+        declared: (u8, u8),
     },
 }
 
@@ -240,8 +244,9 @@ impl Prop for C14 {
             0u8..3,
             0u8..3,
             proptest::collection::vec((coord_strategy(), coord_strategy()), 40..200),
+            prop_oneof![1 => Just((1u8, 0u8)), 2 => (0u8..3, 0u8..3)],
         )
-            .prop_map(|(model, (slo, shi, sb), (glo, ghi, gb), su, gu, points)| C14Case::Model {
+            .prop_map(|(model, (slo, shi, sb), (glo, ghi, gb), su, gu, points, declared)| C14Case::Model {
                 model,
                 speed_lo: (slo * 4.0).round() / 4.0,
                 speed_hi: (shi * 4.0).round() / 4.0,
@@ -252,6 +257,7 @@ impl Prop for C14 {
                 su,
                 gu,
                 points,
+                declared,
             });
         prop_oneof![150 => generic, 1 => model].boxed()
     }
@@ -270,6 +276,7 @@ impl Prop for C14 {
                 su,
                 gu,
                 points,
+                declared,
             } => check_model(
                 *model as usize,
                 (*speed_lo, *speed_hi, *speed_bins),
@@ -277,6 +284,7 @@ impl Prop for C14 {
                 *su as usize,
                 *gu as usize,
                 points,
+                *declared,
                 &mut o,
             ),
         }
@@ -548,6 +556,7 @@ fn check_model(
     su: usize,
     gu: usize,
     points: &[(Coord, Coord)],
+    declared: (u8, u8),
     o: &mut Outcome,
 ) {
     o.label(format!("model-{}", MODELS[model % 4].0));
@@ -559,7 +568,16 @@ fn check_model(
             return;
         }
     };
-    let (m_su, m_gu) = (SpeedUnit::MilesPerHour, GradeUnit::Decimal);
+    // declared units of the interpolated model (default in old replay files: mph, native rate)
+    let m_su = if declared == (0, 0) { SpeedUnit::MilesPerHour } else { SPEED_UNITS[declared.0 as usize % 3] };
+    let m_gu = GradeUnit::Decimal;
+    let native = model_rate_unit(model);
+    let m_ru = if native == EnergyRateUnit::KilowattHoursPerMile {
+        [EnergyRateUnit::KilowattHoursPerMile, EnergyRateUnit::KilowattHoursPerKilometer, EnergyRateUnit::KilowattHoursPerMeter][declared.1 as usize % 3]
+    } else {
+        native
+    };
+    o.label(format!("declared-units-{}-{}", m_su, m_ru));
     let interp = match InterpolationSpeedGradeModel::new(
         &model_path(model),
         ModelType::Smartcore,
@@ -570,7 +588,7 @@ fn check_model(
         m_gu,
         (Grade::new(grade.0), Grade::new(grade.1)),
         grade.2,
-        model_rate_unit(model),
+        m_ru,
     ) {
         Ok(m) => m,
         Err(e) => {
@@ -581,7 +599,8 @@ fn check_model(
     let xs = linspace(speed.0, speed.1, speed.2);
     let ys = linspace(grade.0, grade.1, grade.2);
     let node = |i: usize, j: usize| -> f64 {
-        und.predict((Speed::new(xs[i]), m_su), (Grade::new(ys[j]), m_gu))
+        // the forest itself, in the units `und` was loaded with: numbers in, numbers out
+        und.predict((Speed::new(xs[i]), SpeedUnit::MilesPerHour), (Grade::new(ys[j]), m_gu))
             .map(|(r, _)| r.as_f64())
             .unwrap_or(f64::NAN)
     };
